@@ -6,6 +6,7 @@ CONSTANTS
   Sizes = {}
   KvPool <- KvPoolSmall
   TokPool <- TokPoolSmall
+  MixPool <- MixPoolSmall
   Extra <- Race4
   GFirst = TRUE
   SelDet = FALSE
